@@ -272,7 +272,7 @@ class Model:
                     raise Reject(f"position refers to {x}, undefined while labels are resolved") from x
                 self.locate(v)
                 r = rm.find(self.cfg, v)
-                if not r["ram"] and (v & 0xFFFF) < r["win"]:
+                if not r["ram"] and (v & 0xFFFF) < r["wlo"]:
                     raise Unspec("position below the bank window")
                 run = v
             else:
@@ -428,7 +428,7 @@ class Model:
                 raise Reject("branch target unmapped")
             if r_run["ram"] or r_tgt["ram"]:
                 raise Reject("branch involving RAM")
-            if (run >> 16) != (v >> 16) or (v & 0xFFFF) < r_tgt["win"]:
+            if (run >> 16) != (v >> 16) or (v & 0xFFFF) < r_tgt["wlo"]:
                 raise Unspec("cross-bank branch")
             d = v - (run + 2)
             if not -128 <= d <= 127:
